@@ -17,16 +17,14 @@ use crate::framework::{RunCtx, Violation};
 use crate::json::J;
 use crate::mirror::{deliver, VerifierNode};
 use crate::prng::digest;
-use crate::program::{interpret, ProgCircuit, Tape};
+use crate::program::{ProgCircuit, Tape};
 use crate::rm_rows::{self, RowVerdict};
 use crate::scenario::{gen_scenario, pick_class, scenario_sig, ScenCfg, Scenario};
 use crate::seams::{guarded, EnvCfg, ScriptedRng};
 use crate::wfault::{self, WFault};
 
 pub fn snapshot_of(sc: &Scenario, tape: &Tape) -> Result<dusk_plonk::verif::Snapshot, Error> {
-    let mut c = Composer::initialized();
-    interpret(&sc.prog, tape, &mut c)?;
-    Ok(c.verif_snapshot())
+    crate::program::snapshot_of(&sc.prog, tape)
 }
 
 #[derive(Clone, Debug)]
